@@ -157,7 +157,7 @@ def c20_stages(tier, seed):
     return [
         c01_family("F20_t" if big else "F20_q", replay="C20", fam="F20", leafs="F20_Leafs", comps="F20_Comps",
                    inlines="F20_Inlines", maxsel=3 if big else 2, maxnodes=6 if big else 5, maxdepth=3, dirs="DirsNone",
-                   outs="OT_Abstract"),
+                   outs="OT_C20"),
         c01_family("F4_c20", replay="C20", fam="F4", leafs="F4_Leafs", comps="F4_Comps", inlines="F4_Inlines",
                    maxsel=3 if big else 2, maxnodes=5 if big else 4, maxdepth=3, dirs="DirsNone", outs="OT_Abstract"),
         c01_family("F5_c20", replay="C20", fam="F5", leafs="F5_Leafs", maxsel=3 if big else 2, maxnodes=3 if big else 2,
